@@ -29,13 +29,13 @@ import (
 )
 
 type table struct {
-	idx     int
-	snp     map[uint32][]byte
-	svsm    []byte
-	rows    []att.TdxRow
-	golden  *epb.VMGoldenMeasurement
-	end     *epb.VMLaunchEndorsement
-	endBin  []byte
+	idx    int
+	snp    map[uint32][]byte
+	svsm   []byte
+	rows   []att.TdxRow
+	golden *epb.VMGoldenMeasurement
+	end    *epb.VMLaunchEndorsement
+	endBin []byte
 }
 
 var (
@@ -381,6 +381,100 @@ func main() {
 					return errStr(e)
 				})
 			})
+		}
+	}
+	// History: another endorsement is presented first - one that lists the stray measurement P for
+	// the named configuration, either genuine (and rightly accepted) or with a golden measurement that
+	// stops decoding after those rows (and rightly refused) - and then the endorsement under test,
+	// which does not list P, in the same goroutine right afterwards. Whatever the first call left
+	// behind (a pooled message, a memo) must not make the second accept P.
+	P, PT := att.Meas(0x77), att.Meas(0x78)
+	mkPoison := func(valid bool) *table {
+		pt := &table{idx: -1, snp: map[uint32][]byte{1: P, 2: P, 4: P, 8: P}, svsm: P,
+			rows: []att.TdxRow{{0, false, PT}, {16, false, PT}, {16, true, PT}, {32, false, PT}, {64, false, PT}}}
+		pt.golden = att.Golden(pt.snp, pt.svsm, true, pt.rows, true, fx.T0)
+		if valid {
+			pt.end, err = auth.SignGolden(proto.Clone(pt.golden).(*epb.VMGoldenMeasurement), fx.T0)
+			if err != nil {
+				mc.Fatal("sign: %v", err)
+			}
+		} else {
+			b, _ := proto.Marshal(&epb.VMGoldenMeasurement{SevSnp: pt.golden.SevSnp, Tdx: pt.golden.Tdx})
+			pt.end = &epb.VMLaunchEndorsement{SerializedUefiGolden: append(b, 0xff), Signature: []byte("none")}
+		}
+		pt.endBin, _ = proto.Marshal(pt.end)
+		return pt
+	}
+	poisons := []struct {
+		name string
+		t    *table
+	}{{"genuine-other-endorsement", mkPoison(true)}, {"undecodable-tail", mkPoison(false)}}
+	for _, t := range tables {
+		for _, po := range poisons {
+			for _, ep := range snpEPs {
+				for _, n := range []uint32{0, 2, 8} {
+					t, po, ep, n := t, po, ep, n
+					id := fmt.Sprintf("snp-after ep=%s first=%s table=%d meas=P count=%d", ep.name, po.name, t.idx, n)
+					add(func() {
+						r.Case(id, func() string {
+							var acc, app bool
+							var det string
+							pan, val := mc.Guard(func() {
+								ep.f(po.t, P, n)
+								acc, app, det = ep.f(t, P, n)
+							})
+							r.Eval()
+							if pan {
+								r.Violation("panic/"+ep.name, id, fmt.Sprintf("%s panicked: %v", ep.name, val), nil)
+								return "panic"
+							}
+							if !app {
+								return "n/a"
+							}
+							r.Validated()
+							if acc {
+								r.Violation(ep.name+"/unlisted-measurement-accepted-after-another-endorsement", id,
+									fmt.Sprintf("%s accepted measurement P for %d VMSAs against an endorsement (counts %v) that does not list it, right after a call that presented %s listing P", ep.name, n, keys(t.snp), po.name),
+									map[string]any{"table": t.idx, "count": n, "detail": det})
+							}
+							r.Outcome(ep.name + ":after:" + map[bool]string{true: "accept", false: "reject"}[acc])
+							return det
+						})
+					})
+				}
+			}
+			for _, ep := range tdxEPs {
+				for _, ram := range []int{0, 16, 64} {
+					t, po, ep, ram := t, po, ep, ram
+					id := fmt.Sprintf("tdx-after ep=%s first=%s table=%d mrtd=P ram=%d", ep.name, po.name, t.idx, ram)
+					add(func() {
+						r.Case(id, func() string {
+							var acc, app bool
+							var det string
+							pan, val := mc.Guard(func() {
+								ep.f(po.t, PT, ram)
+								acc, app, det = ep.f(t, PT, ram)
+							})
+							r.Eval()
+							if pan {
+								r.Violation("panic/"+ep.name, id, fmt.Sprintf("%s panicked: %v", ep.name, val), nil)
+								return "panic"
+							}
+							if !app {
+								return "n/a"
+							}
+							r.Validated()
+							if acc {
+								r.Violation(ep.name+"/unlisted-mrtd-accepted-after-another-endorsement", id,
+									fmt.Sprintf("%s accepted MRTD P for RAM %d GiB against an endorsement that does not list it, right after a call that presented %s listing P", ep.name, ram, po.name),
+									map[string]any{"table": t.idx, "ram": ram, "detail": det})
+							}
+							r.Outcome(ep.name + ":after:" + map[bool]string{true: "accept", false: "reject"}[acc])
+							return det
+						})
+					})
+				}
+			}
 		}
 	}
 	r.ParallelFor(len(jobs), func(i int) { jobs[i].f() })
